@@ -66,6 +66,12 @@ package har
 //@ extern func proxyutil.ResponseHeader
 //@   ensures result != nil
 //@ extern func (*proxyutil.Header).Map
+//@ ghost var qsMap url.Values
+//@ ghost var qsN gmap[string]int
+//@ ghost var qsN0 gmap[string]int
+//@ extern func (*net/url.URL).Query
+//@   modifies qsMap
+//@   ensures result != nil && qsMap == result
 //@ func NewRequest
 //@   serves C16
 //@   requires req != nil && req.URL != nil && req.Header != nil
@@ -75,9 +81,18 @@ package har
 //@   ensures[request-line-fields-are-those-of-the-request] result1 == nil ==> result0.Method == req.Method && result0.HTTPVersion == req.Proto && result0.URL == harURL
 //@   ensures[sizes-are-those-of-the-request] result1 == nil ==> result0.BodySize == req.ContentLength && result0.HeadersSize == -1
 //@   ensures[post-data-is-what-the-capture-returned] result1 == nil ==> result0.PostData == lastPostData
-//@   loop 0 invariant true
-//@   loop 1 invariant true
 //@   at call 0 of postData after set lastPostData = result0
+// query string: one entry per VALUE of every parameter (a repeated parameter keeps all its values); qsN counts the
+// entries appended per parameter name
+//@   modifies qsMap, qsN, qsN0
+//@   at call 0 of Query after set qsN0 = qsN
+//@   at call 0 of append before set qsN = upd(qsN, n, qsN[n] + 1)
+//@   loop map 0 invariant r != nil && !wasAllocated(r)
+//@   loop map 0 invariant forall q string :: (visited(q) ==> qsN[q] - qsN0[q] == len(qsMap[q])) && (!visited(q) ==> qsN[q] == qsN0[q])
+//@   loop slice 0 invariant r != nil && !wasAllocated(r) && has(qsMap, n) && vs == qsMap[n]
+//@   loop slice 0 invariant forall q string :: q != n ==> (visited(q) ==> qsN[q] - qsN0[q] == len(qsMap[q])) && (!visited(q) ==> qsN[q] == qsN0[q])
+//@   loop slice 0 invariant qsN[n] - qsN0[n] == rangeindex + 1 && rangeindex < len(vs)
+//@   ensures[one-query-string-entry-per-parameter-value] result1 == nil ==> forall q string :: has(qsMap, q) ==> qsN[q] - qsN0[q] == len(qsMap[q])
 //@ func NewResponse
 //@   serves C16
 //@   requires res != nil && res.Header != nil
@@ -268,12 +283,14 @@ package har
 //@   ensures jsonIn == v
 //@ func (Content).MarshalJSON
 //@   serves C16
+//@   at call all of EncodeToString before assert[encoded-with-the-standard-alphabet] self == base64.StdEncoding
 //@   modifies jsonIn
 //@   ensures[unsupported-encoding-is-an-error] c.Encoding != "base64" && c.Encoding != "" ==> result1 != nil
 //@   at call 0 of Marshal before assert[binary-content-travels-as-base64-of-its-bytes] c.Encoding == "base64" ==> cj.Text == b64(c.Text)
 //@   at call 0 of Marshal before assert[size-type-and-encoding-kept] cj.Size == c.Size && cj.MimeType == c.MimeType && cj.Encoding == c.Encoding
 //@ func (*PostData).MarshalJSON
 //@   serves C16
+//@   at call all of EncodeToString before assert[encoded-with-the-standard-alphabet] self == base64.StdEncoding
 //@   requires p != nil
 //@   modifies jsonIn
 //@   at call 1 of Marshal before assert[non-utf8-post-data-travels-as-base64-with-the-encoding-marked] !utf8.ValidString(p.Text) &&
@@ -283,6 +300,8 @@ package har
 //@   modifies contentJSON.*, pdBinary.*, PostData.*
 //@ func (*Content).UnmarshalJSON
 //@   serves C16
+// b64 / unb64 are the STANDARD alphabet: reader and writer both use base64.StdEncoding
+//@   at call 0 of DecodeString before assert[decoded-with-the-alphabet-the-writer-uses] self == base64.StdEncoding
 //@   requires c != nil
 //@   modifies contentJSON.*, pdBinary.*, PostData.*, c.Size, c.MimeType, c.Text, c.Encoding
 //@   noframe
